@@ -639,9 +639,58 @@ func c02FindHighest(c *Ctx) {
 	fl := NewFlow(p, fn)
 	var bad []string
 	exits := successExits(fl, 1)
+	// the "first valid candidate" may be found with slices.IndexFunc(candidates, valid): the element at the index it
+	// returns satisfies the predicate, every earlier element does not, and the scan is in slice order
+	var ixCall *ssa.Call
+	var ixTrue []Fact
+	ixFalseRejects := false
+	eachInstr(fn, func(in ssa.Instruction) {
+		call, ok := in.(*ssa.Call)
+		if !ok || call.Call.StaticCallee() == nil || !strings.HasPrefix(call.Call.StaticCallee().String(), "slices.IndexFunc") || len(call.Call.Args) != 2 {
+			return
+		}
+		pf, okP := predicateFacts(fl, call.Call.Args[1])
+		cl, _ := resolveClosure(fl, call.Call.Args[1])
+		if !okP || cl == nil {
+			return
+		}
+		ixCall, ixTrue = call, pf
+		// every way the predicate answers false says that VerifyQuorumCert rejected the element
+		pfl := NewFlow(p, cl)
+		ixFalseRejects = true
+		for _, r := range returnsOf(cl) {
+			if !pfl.Reachable(r.Block()) || isBoolConst(retValue(r, 0), true) {
+				continue
+			}
+			fs := pfl.At(r).clone()
+			if !isBoolConst(retValue(r, 0), false) {
+				var extra []Fact
+				pfl.decompose(retValue(r, 0), false, &extra)
+				for _, f := range extra {
+					fs[f] = true
+				}
+			}
+			if !notNilOf(fs, func(x string) bool { return strings.HasPrefix(x, kVerifyQC) && strings.Contains(x, ", p0)") }) {
+				ixFalseRejects = false
+			}
+		}
+	})
 	for _, e := range exits {
 		for _, lf := range leaves(fl, retValue(e.Ret, 0), e.Ret) {
 			k := lf.KeyIn(fl)
+			if ixCall != nil && k == fl.K.Key(ixCall.Call.Args[0])+"["+fl.K.Key(ixCall)+"]" {
+				// candidates[IndexFunc(candidates, valid)] under a non-negative index
+				found := hasCmp(lf.Facts, "<=", is("c:0"), is(fl.K.Key(ixCall))) || hasCmp(e.Facts, "<=", is("c:0"), is(fl.K.Key(ixCall)))
+				verified := false
+				for _, f := range ixTrue {
+					if f.Op == "==" && oneIsNil(f) && strings.HasPrefix(nonNil(f), kVerifyQC) && strings.Contains(nonNil(f), ", elem)") {
+						verified = true
+					}
+				}
+				if found && verified {
+					continue
+				}
+			}
 			if !errNilOf(lf.Facts, func(x string) bool { return strings.HasPrefix(x, kVerifyQC) && strings.Contains(x, ", "+k+")") }) {
 				bad = append(bad, k+" at "+p.Pos(e.Ret.Pos()))
 			}
@@ -724,6 +773,9 @@ func c02FindHighest(c *Ctx) {
 				}
 			}
 		})
+		if n == 0 && ixCall != nil && fl.K.Key(ixCall.Call.Args[0]) == sorted && ixFalseRejects {
+			n = 1 // the library scan passes over exactly the elements for which the predicate said "rejected"
+		}
 		c.Check(n > 0 && len(open) == 0, "C02.7/complete", "findHighestValidQC", p.FuncPos(fn),
 			"the scan moves on to the next candidate only after VerifyQuorumCert rejected the current one",
 			"a candidate can be passed over without having been rejected by VerifyQuorumCert (loop at "+join(open)+"): a valid certificate with the highest view is skipped and a lower one is reported")
@@ -898,8 +950,12 @@ func c02CheckPop(c *Ctx) {
 	exits := successExits(fl, 0)
 	for _, e := range exits {
 		facts := e.Facts
-		hit := trueOf(facts, func(k string) bool { return strings.Contains(k, "bls12Base.popCache[") && strings.HasSuffix(k, "#0") }) &&
-			trueOf(facts, func(k string) bool { return strings.Contains(k, "bls12Base.popCache[") && strings.HasSuffix(k, "#1") })
+		// (the map may be a field of bls12Base or of a small cache type held in that field, read through a helper)
+		isCacheRead := func(k, suffix string) bool {
+			return strings.Contains(k, "bls12Base.popCache") && strings.Contains(k, "[") && strings.HasSuffix(k, suffix)
+		}
+		// (a true value read from a map[string]bool implies that the entry is present)
+		hit := trueOf(facts, func(k string) bool { return isCacheRead(k, "#0") })
 		verified := (e.Via != nil && calleeIs(&e.Via.Call, pv)) || errNilOf(facts, func(k string) bool { return strings.HasPrefix(k, pvKey) })
 		// `return err` where err is popVerify's result
 		if !verified {
@@ -916,34 +972,65 @@ func c02CheckPop(c *Ctx) {
 	// cache key incorporates proof and key; popVerify is called with the replica's own key and the decoded proof
 	okKey, okVal, okArgs := true, false, false
 	nKeys := 0
-	eachInstr(fn, func(in ssa.Instruction) {
-		switch x := in.(type) {
+	// look-ups and updates of the verdict map, in checkPop or in the methods of a small cache type it calls; a key or
+	// value that is the helper's parameter is judged by the argument checkPop passes
+	inRoot := func(d DeepInstr, v ssa.Value) ssa.Value {
+		if d.In == fn {
+			return v
+		}
+		prm, isPrm := v.(*ssa.Parameter)
+		if !isPrm || len(d.Path) != 1 {
+			return nil
+		}
+		for i, q := range d.In.Params {
+			if q == prm && i < len(d.Path[0].Common().Args) {
+				return d.Path[0].Common().Args[i]
+			}
+		}
+		return nil
+	}
+	keyOK := func(v ssa.Value) bool {
+		if v == nil {
+			return false
+		}
+		d := ic.deps(v)
+		return hasDepContaining(d, "Metadata") && (hasDepContaining(d, "PubKey") || hasDepContaining(d, "BLS12PublicKey"))
+	}
+	for _, d := range deepInstrs(fl, func(in ssa.Instruction) bool {
+		switch in.(type) {
+		case *ssa.Lookup, *ssa.MapUpdate:
+			return true
+		}
+		return false
+	}, 0) {
+		switch x := d.Instr.(type) {
 		case *ssa.Lookup:
-			if strings.HasSuffix(fl.K.Key(x.X), "bls12Base.popCache") {
+			if strings.Contains(d.Key(x.X), "bls12Base.popCache") {
 				nKeys++
-				d := ic.deps(x.Index)
-				if !hasDepContaining(d, "Metadata") || !(hasDepContaining(d, "PubKey") || hasDepContaining(d, "BLS12PublicKey")) {
+				if !keyOK(inRoot(d, x.Index)) {
 					okKey = false
 				}
 			}
 		case *ssa.MapUpdate:
-			if strings.HasSuffix(fl.K.Key(x.Map), "bls12Base.popCache") {
+			if strings.Contains(d.Key(x.Map), "bls12Base.popCache") {
 				nKeys++
-				d := ic.deps(x.Key)
-				if !hasDepContaining(d, "Metadata") || !(hasDepContaining(d, "PubKey") || hasDepContaining(d, "BLS12PublicKey")) {
+				if !keyOK(inRoot(d, x.Key)) {
 					okKey = false
 				}
-				vk := fl.K.Key(x.Value)
-				if strings.HasPrefix(vk, "("+pvKey) && strings.HasSuffix(vk, " == nil)") {
-					okVal = true
+				if rv := inRoot(d, x.Value); rv != nil {
+					vk := fl.K.Key(rv)
+					if strings.HasPrefix(vk, "("+pvKey) && strings.HasSuffix(vk, " == nil)") {
+						okVal = true
+					}
 				}
 			}
-		case *ssa.Call:
-			if calleeIs(&x.Call, pv) {
-				for _, a := range x.Call.Args {
-					if strings.Contains(fl.K.Key(a), "ReplicaInfo.PubKey") {
-						okArgs = true
-					}
+		}
+	}
+	eachInstr(fn, func(in ssa.Instruction) {
+		if x, ok := in.(*ssa.Call); ok && calleeIs(&x.Call, pv) {
+			for _, a := range x.Call.Args {
+				if strings.Contains(fl.K.Key(a), "ReplicaInfo.PubKey") {
+					okArgs = true
 				}
 			}
 		}
